@@ -401,6 +401,13 @@ def build(resource: dict, style, mutation: dict, literal_ws: bool = False) -> Bu
         at = i + 1 if arg % 2 == 0 else len(parent.children)
         parent.children.insert(at, _clone(el))
         b.what = f'<{el.tag}> repeated in <{parent.tag}> at child {at}'
+        if arg % 3 == 2:
+            # ... and the first occurrence is a bare element (no attributes, no content): a
+            # reader that keeps "the child seen so far" must still notice the repetition
+            el.attrs = []
+            el.children = []
+            el.text = None
+            b.what += ', the first one without attributes'
     elif cls == 'close-tag-removed':
         el, _p = handle
         marks[id(el)] = {'close': None}
